@@ -898,6 +898,58 @@ pub fn run(rep: &'static Report) {
         }
     }
 
+    // encryption to ONESELF through the program, twice: the two files carry different ephemeral keys, neither of them the
+    // sender's own static key; and library encryptions of the EMPTY plaintext with everything left to the library: the
+    // payload keys (recovered by REF) are different and not all zero
+    {
+        let me = Party::new(seed, "me", "mepw");
+        let attempt = || -> Result<(), String> {
+            let sc = Scratch::new();
+            sc.write("kr.txt", me.entry(true).as_bytes());
+            sc.write("plain.bin", b"note to self");
+            let mut eph: Vec<Vec<u8>> = vec![];
+            for i in 0..2 {
+                let o = proc::run(&Cmd::new(&["encrypt", "plain.bin", "-t", "me", "-f", "me", "-k", "kr.txt", "-o", "out.ktl", "--env-pass"]).env("KESTREL_PASSWORD", "mepw"), &sc.0);
+                let f = sc.read("out.ktl").unwrap_or_default();
+                if !o.ok() || f.len() < 132 {
+                    return Err(format!("encrypt to oneself failed: {}", o.summary()));
+                }
+                if f[4..36] == me.pk[..] {
+                    return Err(format!("file {} of two encrypted to oneself carries the sender's own static key as its ephemeral key", i + 1));
+                }
+                eph.push(f[4..84].to_vec());
+                let _ = std::fs::remove_file(sc.0.join("out.ktl"));
+            }
+            if eph[0] == eph[1] {
+                return Err("two encryptions to oneself share the ephemeral key and the sealed sender field (bytes 4..84)".into());
+            }
+            Ok(())
+        };
+        rep.eval(2);
+        rep.nontrivial(b"encrypt-to-self-twice");
+        if attempt().is_err() {
+            if let Err(e) = attempt() {
+                rep.violation("self/ephemeral-reused", json!({"kind":"append"}), e);
+            }
+        }
+        let ids = idents(seed);
+        let mut pays: Vec<[u8; 32]> = vec![];
+        for _ in 0..3 {
+            let mut out = Vec::new();
+            let mut src: &[u8] = b"";
+            let ok = guarded(|| kestrel_crypto::encrypt::key_encrypt(&mut src, &mut out, &ids[0].private(), &ids[0].public(), &ids[1].public(), None, None, None, kestrel_crypto::AsymFileFormat::V1).is_ok());
+            if ok == Ok(true) {
+                if let Ok(k) = r::read_key_file(&ids[1].sk, &out) {
+                    pays.push(k.payload_key);
+                }
+            }
+        }
+        rep.eval(3);
+        rep.nontrivial(b"empty-plaintext-payload-keys");
+        if pays.len() != 3 || pays.iter().any(|k| k.iter().all(|&b| b == 0)) || pays[0] == pays[1] || pays[1] == pays[2] || pays[0] == pays[2] {
+            rep.violation("partial/value-reused", json!({"kind":"append"}), format!("three encryptions of the EMPTY plaintext with all randomness left to the library: payload keys {:?}", pays.iter().map(|k| hx(k)).collect::<Vec<_>>()));
+        }
+    }
     // the same under passwords of particular shapes (empty, one blank, one letter, exactly / just over one HMAC block, long):
     // two generations into one ring, a change of the first key's password to the very same password, and two password
     // encryptions of one plaintext -- every salt and every private key is new, within one password and across all of them
